@@ -143,12 +143,14 @@ ControlAsWritten(rows, kp) ==
             ELSE Append(rows, row)
 Expand(i) ==
     LET m == EntryModel[i] IN
-    IF m = "" THEN Entries[i].map
-    ELSE IF Variant = "asWritten"
-    THEN (IF Entries[i].new # m THEN Entries[i].map        \* ':' entries use the bare table
-          ELSE ControlAsWritten(ExpandK(Entries[i].map, Models[m].kernel, 1), Models[m].kernel))
-    ELSE ExpandK(Entries[i].map, Models[m].kernel, 1)
+    IF m = "" THEN Entries[i].map ELSE ExpandK(Entries[i].map, Models[m].kernel, 1)
+ExpandW(i) ==
+    LET m == EntryModel[i] IN
+    IF m = "" \/ Entries[i].new # m THEN Entries[i].map        \* ':' entries use the bare table
+    ELSE ControlAsWritten(ExpandK(Entries[i].map, Models[m].kernel, 1), Models[m].kernel)
+\* the translation the property means (RowsOf) and the one the code used as written (RowsW)
 RowsOf == [i \in 1..NE |-> Expand(i)]
+RowsW == [i \in 1..NE |-> ExpandW(i)]
 
 \* old key -> new key ("" = dropped), for every row and attribute suffix; first row wins
 RowMap(r) ==
@@ -226,7 +228,7 @@ SeqRows(np, P, rows, j) ==
     ELSE IF rows[j].oldnone \/ (~rows[j].newnone /\ rows[j].old = rows[j].new)
     THEN SeqRows(np, P, rows, j + 1)
     ELSE SeqRows(SeqDots(np, P, rows[j], 1), P, rows, j + 1)
-RenameW(P, i) == SeqRows(P, P, RowsOf[i], 1)
+RenameW(P, i) == SeqRows(P, P, RowsW[i], 1)
 
 ---------------------------------------------------------------------------
 (* RescaleSld: 3.x sets carry SLDs in 1/Ang^2, sasmodels in 1e-6/Ang^2    *)
@@ -275,10 +277,7 @@ Magnetic(P, vi, m) ==
 \* as written the renames run before the table rename (which is what produces tag:par keys),
 \* attribute suffixes are not kept at the end, and only the bare up_angle key is handled
 MagneticW(P, vi, m) ==
-    LET Names == DOMAIN P
-        Pre(k) == CASE \E x \in Names : k = "M0:" \o x -> (CHOOSE x \in Names : k = "M0:" \o x) \o "_M0"
-                    [] OTHER -> k
-        P1 == P       \* no old name starts with "M0:", "mtheta:", "mphi:" or "up:" - nothing happens
+    LET P1 == P       \* no old name starts with "M0:", "mtheta:", "mphi:" or "up:" - nothing happens
         P2 == IF VLeq(Versions[vi], V504) /\ "up_angle" \in DOMAIN P1
               THEN SetKeys([k \in (DOMAIN P1 \ {"up_angle"}) \cup {"up_phi"} |->
                                IF k = "up_phi" THEN P1["up_angle"] ELSE P1[k]],
@@ -354,28 +353,27 @@ ChainBase(b, i, vi) ==
                ELSE ChainBase(b1, j, w)
 FinalOfRow(i, r) ==
     LET vi == CHOOSE v \in 1..NV : Versions[v] = Entries[i].version
-    IN IF r.newnone THEN [model |-> EntryModel[i], base |-> ""] ELSE ChainBase(r.new, i, vi)
-FinalModel(i) ==
-    LET vi == CHOOSE v \in 1..NV : Versions[v] = Entries[i].version
-    IN ChainBase("scale", i, vi).model
+    IN  IF r.newnone THEN [model |-> EntryModel[i], base |-> ""] ELSE ChainBase(r.new, i, vi)
+\* cached per entry and row
+VIdxOf == [i \in 1..NE |-> CHOOSE v \in 1..NV : Versions[v] = Entries[i].version]
+FinalOf == [i \in 1..NE |-> [j \in 1..Len(RowsOf[i]) |-> FinalOfRow(i, RowsOf[i][j])]]
 
 ---------------------------------------------------------------------------
 (* Table-level checks, every entry and every row (no code is executed)    *)
 RowDefects(i) ==
     LET rows == RowsOf[i]
         e == Entries[i]
+        F == FinalOf[i]
         Key(cls, r) == [class |-> cls, version |-> VText(e.version), model |-> e.new,
                         old |-> r.old, new |-> r.new]
     IN {Key("stale-row", rows[j]) : j \in {j \in 1..Len(rows) :
-            LET f == FinalOfRow(i, rows[j]) IN
-            ~rows[j].newnone /\ ~rows[j].oldnone /\ f.base # "" /\ f.model # ""
-            /\ f.base \notin CallIdsOf[f.model]}}
+            ~rows[j].newnone /\ ~rows[j].oldnone /\ F[j].base # "" /\ F[j].model # ""
+            /\ F[j].base \notin CallIdsOf[F[j].model]}}
        \cup {Key("duplicate-old-name", rows[j]) : j \in {j \in 1..Len(rows) :
             ~rows[j].oldnone /\ \E k \in 1..(j - 1) : ~rows[k].oldnone /\ rows[k].old = rows[j].old}}
        \cup {Key("target-collision", rows[j]) : j \in {j \in 1..Len(rows) :
-            LET f == FinalOfRow(i, rows[j]) IN
-            ~rows[j].oldnone /\ f.base # "" /\
-            \E k \in 1..(j - 1) : ~rows[k].oldnone /\ FinalOfRow(i, rows[k]).base = f.base}}
+            ~rows[j].oldnone /\ F[j].base # "" /\
+            \E k \in 1..(j - 1) : ~rows[k].oldnone /\ F[k].base = F[j].base}}
 EntryDefects(i) ==
     LET e == Entries[i]
         Key(cls) == [class |-> cls, version |-> VText(e.version), model |-> e.new,
@@ -383,9 +381,10 @@ EntryDefects(i) ==
     IN (IF EntryModel[i] = "" \/ EntryModel[i] \notin Current THEN {Key("target-model-missing")} ELSE {})
        \cup (IF \E j \in 1..(i - 1) : Entries[j].version = e.version /\ Entries[j].old = e.old
              THEN {Key("duplicate-old-model-name")} ELSE {})
-TableDefects == UNION {EntryDefects(i) \cup (IF EntryModel[i] = "" THEN {} ELSE RowDefects(i)) : i \in 1..NE}
+DefectsOf == [i \in 1..NE |-> EntryDefects(i) \cup (IF EntryModel[i] = "" THEN {} ELSE RowDefects(i))]
+TableDefects == UNION {DefectsOf[i] : i \in 1..NE}
 \* rows that take part in scenarios: old name given, not reported above
-DefectiveOld(i) == {d.old : d \in {x \in TableDefects : x.model = Entries[i].new
-                                    /\ x.version = VText(Entries[i].version)
-                                    /\ x.class \in {"stale-row", "duplicate-old-name", "target-collision"}}}
+DefectiveOldOf == [i \in 1..NE |->
+    {d.old : d \in {x \in DefectsOf[i] :
+                      x.class \in {"stale-row", "duplicate-old-name", "target-collision"}}}]
 =============================================================================
